@@ -361,7 +361,7 @@ pub fn c13() -> Property {
             Tier::Thorough => vec![Step::Pbt { kind: "traffic", cases: 8000, max_len: 120 }, Step::Pbt { kind: "traffic_long", cases: 400, max_len: 120 }],
         },
         hang_is_violation: false,
-        hang_limit_s: 300,
+        hang_limit_s: 900,
         probes: vec![],
     }
 }
@@ -383,7 +383,7 @@ pub fn c15() -> Property {
             Tier::Thorough => vec![Step::Pbt { kind: "callbacks", cases: 10_000, max_len: 120 }, Step::Pbt { kind: "callbacks_long", cases: 400, max_len: 120 }],
         },
         hang_is_violation: false,
-        hang_limit_s: 300,
+        hang_limit_s: 900,
         probes: vec![],
     }
 }
